@@ -6,6 +6,7 @@ import (
 	"crypto/sha1"
 	"crypto/sha256"
 	"crypto/x509"
+	"crypto/x509/pkix"
 	"encoding/hex"
 	"errors"
 	"fmt"
@@ -79,6 +80,7 @@ func (c05) Gen(r *rand.Rand, tier string, idx int) *core.Plan {
 	w["plugin"] = int64(r.IntN(3) / 2) // a verification plugin that owns trusted identity only
 	w["base"] = int64(r.IntN(3))       // strict / permissive / audit as the level the revocation action overrides
 	w["ctor"] = int64(r.IntN(2))       // NewVerifierWithOptions / the deprecated NewWithOptions
+	w["nosubj"] = int64(r.IntN(5) / 4) // the signing certificate has an empty subject name
 	if r.IntN(12) == 0 {
 		p.Faults = append(p.Faults, rt.Fault{Task: 0, Op: "revocation.validate", Nth: r.IntN(int(w["rounds"])), Kind: "EIO"})
 	}
@@ -99,10 +101,21 @@ func (l c05) Exec(env *core.Env) *core.Result {
 			n = 1
 		}
 		var chain *world.Chain
+		// nosubj: the signing certificate has an empty subject name and carries its identity in the subject
+		// alternative name only (workload-identity style); it cannot be named by its subject
+		nosubj := w["nosubj"] == 1
 		if n == 1 {
 			chain = world.SelfSignedLeaf("tok0", world.EC256)
+			if nosubj {
+				chain = &world.Chain{Certs: []*world.Cert{world.NewCert(nil, world.CertOpts{Subject: &pkix.Name{}, DNSNames: []string{"tok0.example"}, Kind: world.EC256, EKU: []x509.ExtKeyUsage{x509.ExtKeyUsageCodeSigning}, PathLen: -1})}}
+			}
 		} else {
-			chain = world.NewChain("c", n-2, world.EC256, func(level int, o *world.CertOpts) { o.CN = fmt.Sprintf("tok%d", level) })
+			chain = world.NewChain("c", n-2, world.EC256, func(level int, o *world.CertOpts) {
+				o.CN = fmt.Sprintf("tok%d", level)
+				if nosubj && level == 0 {
+					o.Subject, o.DNSNames = &pkix.Name{}, []string{"tok0.example"}
+				}
+			})
 		}
 		scheme, storeType := signature.SigningSchemeX509, "ca"
 		if w["scheme"] == 1 {
@@ -180,7 +193,7 @@ func (l c05) Exec(env *core.Env) *core.Result {
 			for _, r := range vector {
 				vs = append(vs, r.String())
 			}
-			key := fmt.Sprintf("round=%d n=%d vector=%v answer=%d short=%d injected=%v legacy=%d action=%s scheme=%d entry=%d plugin=%d base=%d", k, n, vs, answer, val.Short, injected, w["legacy"], action, w["scheme"], w["entry"], w["plugin"], w["base"])
+			key := fmt.Sprintf("round=%d n=%d vector=%v answer=%d short=%d injected=%v legacy=%d action=%s scheme=%d entry=%d plugin=%d base=%d nosubj=%d", k, n, vs, answer, val.Short, injected, w["legacy"], action, w["scheme"], w["entry"], w["plugin"], w["base"], w["nosubj"])
 			sim.Abstract(fmt.Sprint(key, val.Methods, verr == nil))
 			allGood := true
 			anyRevoked := false
@@ -278,7 +291,7 @@ func (l c05) Exec(env *core.Env) *core.Result {
 							res.Violate("C05/wrong-certificate-named-revoked", key, "the error names certificate %s which was reported %s: %v", tok, r, rev.Error)
 						}
 					}
-					if !named {
+					if !named && !(nosubj && vector[0] == revresult.ResultRevoked) {
 						res.Violate("C05/no-revoked-certificate-named", key, "no revoked certificate is named in: %v", rev.Error)
 					}
 				}
